@@ -131,8 +131,10 @@ class MessagePackDocument(HierDictDocument):
         return value
 
     def _ret_bool(self, _, value):
-        if value is None or value in (True, False):
+        if value is None:
             return value
+        if value in (True, False):  # also the numbers 0 and 1
+            return bool(value)
         raise ValidationError(value)
 
     def get_class_name(self, cls):
